@@ -208,6 +208,8 @@ func c09ClassList(m *c09Sim, extra ...string) []string {
 type c09Runner struct {
 	m     *c09Sim
 	x     bool // steps are (xop * obs)
+	w     bool // steps are (wop * obs): the periodic worker is running
+	dis   bool // the context was created with the statistics disabled
 	steps []string
 	ok    bool
 	key   string
@@ -219,6 +221,9 @@ type c09Runner struct {
 func (q *c09Runner) wrap(op, ob string) string {
 	if q.x {
 		return "(XOp (" + op + "), " + ob + ")"
+	}
+	if q.w {
+		return "(WOp (" + op + "), " + ob + ")"
 	}
 	return "(" + op + ", " + ob + ")"
 }
@@ -252,9 +257,12 @@ func (q *c09Runner) emit(out *vfOut, id0 uint32, ms int64, name string, nontrivi
 	if q.x {
 		ctor, ty = "CShut", "xop * obs"
 	}
+	if q.w {
+		ctor, ty = "CWork", "wop * obs"
+	}
 	desc["name"], desc["id0"], desc["limit_ms"], desc["ops"] = name, id0, ms, q.ops
 	out.Emit(vfCase{
-		Coq:        fmt.Sprintf("(%s %d %d true %s)%%Z", ctor, id0, ms, vfList(ty, q.steps)),
+		Coq:        fmt.Sprintf("(%s %d %d %s %s)%%Z", ctor, id0, ms, vfBool(!q.dis), vfList(ty, q.steps)),
 		Nontrivial: nontrivial,
 		Classes:    c09ClassList(q.m, classes...),
 		MonitorOK:  q.ok,
